@@ -637,6 +637,40 @@ func genC03(g *Gen, tier string, w *bufio.Writer) {
 	for i := 0; i < n; i++ {
 		fmt.Fprintln(w, genGroupCase(g, tier == "thorough"))
 	}
+	// aggregates (plain and DISTINCT, MIN / MAX) of an outer query over a RETRACTING source: equal values present several
+	// times, one occurrence retracted while others remain
+	nr := 12
+	if tier == "thorough" {
+		nr = 300
+	}
+	for i := 0; i < nr; i++ {
+		rows := 2 + g.Intn(12)
+		var sb strings.Builder
+		for r := 0; r < rows; r++ {
+			fmt.Fprintf(&sb, " %d %d", g.Intn(4), g.Intn(3))
+		}
+		fmt.Fprintf(w, "gret %s %d %d%s\n", Pick(g, []string{"json", "csv", "batch_table"}), 1+g.Intn(2), rows, sb.String())
+	}
+}
+
+func driveGret(toks []string) string {
+	mode, n := toks[1], toks[2]
+	rows, _ := strconv.Atoi(toks[3])
+	rest := toks[4:]
+	if len(rest) < 2*rows {
+		return "bad-op"
+	}
+	dir := scratchDir("gret")
+	defer os.RemoveAll(dir)
+	var sb strings.Builder
+	sb.WriteString("k,v\n")
+	for r := 0; r < rows; r++ {
+		fmt.Fprintf(&sb, "%s,%s\n", rest[2*r], rest[2*r+1])
+	}
+	os.WriteFile(dir+"/t.csv", []byte(sb.String()), 0o644)
+	sql := "SELECT COUNT(DISTINCT q.c) AS cd, SUM(DISTINCT q.c) AS sd, COUNT(q.c) AS cc, SUM(q.c) AS s, MAX(q.c) AS mx, MIN(q.c) AS mn FROM " +
+		"(SELECT t.k AS k, COUNT(t.v) AS c FROM t.csv t GROUP BY t.k TRIGGER COUNTING " + n + ") q"
+	return canonOutput(runOctosql(dir, nil, sql, "-o", mode), mode, "iiiiii")
 }
 
 // ---------------------------------------------------------------- drive
@@ -863,6 +897,8 @@ func driveC03(toks []string) string {
 	case "res":
 		t, _ := ParseType(toks[2:])
 		return driveRes(toks[1], t)
+	case "gret":
+		return driveGret(toks)
 	}
 	mode, _, fileFmt, kinds, names, rows, sql := parseSelLine(toks)
 	optTok := toks[2]
